@@ -272,7 +272,7 @@ func checkE2E(dir, out string) {
 		if run.Exit != 0 {
 			status = 1
 		}
-		itemsV = append(itemsV, fmt.Sprintf("{| k_cfg := {| c_members := []; c_watchers := []; c_init := [] |};\n     k_cast := [];\n     k_items := [];\n     k_events := [];\n     k_brackets := [%s];\n     k_files := [%s];\n     k_status := %d;\n     k_nums := [];\n     k_intent := [%s] |}",
+		itemsV = append(itemsV, fmt.Sprintf("{| k_cfg := {| c_members := []; c_watchers := []; c_init := [] |};\n     k_cast := [];\n     k_items := [];\n     k_events := [];\n     k_brackets := [%s];\n     k_files := [%s];\n     k_status := %d;\n     k_nums := [];\n     k_epoch := 0%%Z;\n     k_tslog := [];\n     k_intent := [%s] |}",
 			strings.Join(brV, "; "), strings.Join(fileV, ";\n       "), status, strings.Join(intV, ";\n       ")))
 		cases = append(cases, map[string]interface{}{"name": p.Name, "config": p.Cfg, "lines": p.Lines, "csv": csv,
 			"exit": run.Exit, "wall_s": run.WallS, "output_tail": run.Tail, "expected": p.Expect, "play_start_offset_ns": off})
